@@ -7,6 +7,7 @@
 (* contract is bound to the logged value.                                  *)
 (***************************************************************************)
 EXTENDS Theta, TraceCommon
+CONSTANT CheckDesign   \* TRUE only in the tier-B configuration (TraceThetaB.cfg): compare with the design model's expected state
 VARIABLES cv, blob
 tvars == <<obj, l, cv, blob>>
 
@@ -33,21 +34,27 @@ ValOK(r, v) ==
 Scalars(e, o) == /\ Chk("theta", e.thetaH = ObsTheta(o))
                  /\ Chk("num_retained", e.n = Cardinality(Ret(o)))
                  /\ Chk("empty", e.empty = o.empty)
+\* tier B (drift only): replayed behaviours of the design model carry its expected state in x* fields
+DesignOK(e) == (CheckDesign /\ Has(e, "xThetaH")) =>
+                 /\ Chk("B:design-theta", e.thetaH = e.xThetaH)
+                 /\ Chk("B:design-num-retained", e.n = e.xN)
+                 /\ Chk("B:design-empty", e.empty = e.xEmpty)
+                 /\ Chk("B:design-lg-cur-size", e.lgCur = e.xLgCur)
 TParam(o, logged) == IF o.empty THEN o.thetaH ELSE logged
 
 TBegin == IsEvent("Begin") /\ obj' = <<>> /\ cv' = <<>> /\ blob' = <<>>
 TNew == IsEvent("New") /\ LET e == Log[l] IN New(e.id, e.k, e.startH, e.maxH) /\ UNCHANGED <<cv, blob>>
 TUpdate == IsEvent("Update") /\ LET e == Log[l] IN
              /\ Update(e.id, e.hH, e.thetaH)
-             /\ Scalars(e, obj'[e.id])
+             /\ Scalars(e, obj'[e.id]) /\ DesignOK(e)
              /\ UNCHANGED <<cv, blob>>
 TUpdateIgnored == IsEvent("UpdateIgnored") /\ LET e == Log[l] IN
              /\ UpdateIgnored(e.id) /\ Scalars(e, obj[e.id]) /\ UNCHANGED <<cv, blob>>
 TTrim == IsEvent("Trim") /\ LET e == Log[l] IN
              /\ Trim(e.id, TParam(obj[e.id], e.thetaH))
-             /\ Scalars(e, obj'[e.id]) /\ UNCHANGED <<cv, blob>>
+             /\ Scalars(e, obj'[e.id]) /\ DesignOK(e) /\ UNCHANGED <<cv, blob>>
 TReset == IsEvent("Reset") /\ LET e == Log[l] IN
-             /\ Reset(e.id) /\ Scalars(e, obj'[e.id]) /\ UNCHANGED <<cv, blob>>
+             /\ Reset(e.id) /\ Scalars(e, obj'[e.id]) /\ DesignOK(e) /\ UNCHANGED <<cv, blob>>
 TObs == IsEvent("Obs") /\ LET e == Log[l] IN
              /\ ValOK(e.r, Val(obj[e.id])) /\ UNCHANGED <<obj, cv, blob>>
 TCopy == IsEvent("Copy") /\ LET e == Log[l] IN
